@@ -716,8 +716,8 @@ def _update_state(cell_indices, cell_idx_to_neigh_idx, curr_state, next_state, c
 
     if state in cache:
         # update next_state with next vals from cache
-        state_row_indices = neigh_row_indices[1:-1]
-        state_col_indices = neigh_col_indices[1:-1]
+        state_row_indices = cell_indices['f0'][:, 0]
+        state_col_indices = cell_indices['f1'][0, :]
         next_state[np.ix_(state_row_indices, state_col_indices)] = cache[state]
     else:
         if cell_indices.shape[0] > 1 or cell_indices.shape[1] > 1:
@@ -736,8 +736,8 @@ def _update_state(cell_indices, cell_idx_to_neigh_idx, curr_state, next_state, c
             val = apply_rule(neighbourhood, c, t)
             next_state[c[0]][c[1]] = val
         # get the result from the next_state for the left_indices and place in cache
-        state_row_indices = neigh_row_indices[1:-1]
-        state_col_indices = neigh_col_indices[1:-1]
+        state_row_indices = cell_indices['f0'][:, 0]
+        state_col_indices = cell_indices['f1'][0, :]
         vals_to_cache = next_state[np.ix_(state_row_indices, state_col_indices)]
         cache[state] = vals_to_cache
 
